@@ -37,6 +37,10 @@ def build_msg(spec, delta):
         return mido.MetaMessage('text', text=f't{spec[1]}', time=delta)
     if k == 'eot':
         return mido.MetaMessage('end_of_track', time=delta)
+    if k == 'etext':
+        return mido.MetaMessage(('marker', 'text', 'lyrics', 'cue_marker')[spec[1] % 4], text='', time=delta)
+    if k == 'eseq':
+        return mido.MetaMessage('sequencer_specific', data=(), time=delta)
     if k == 'sx_open':
         return mido.Message('sysex', data=(spec[1] % 128, 5), time=delta)
     if k == 'sx_cont':
@@ -63,6 +67,10 @@ def encode_event(spec, delta):
         return (d, 'meta', 0x01, list(f't{spec[1]}'.encode('ascii')), 0)
     if k == 'eot':
         return (d, 'meta', 0x2F, [], 0)
+    if k == 'etext':
+        return (d, 'meta', (0x06, 0x01, 0x05, 0x07)[spec[1] % 4], [], 0)      # a text event with an empty payload
+    if k == 'eseq':
+        return (d, 'meta', 0x7F, [], 0)
     if k == 'sx_open':
         return (d, 'sysex', 0xF0, [spec[1] % 128, 5], 0)            # a sysex packet without its terminator ...
     if k == 'sx_cont':
@@ -169,6 +177,8 @@ class Playback(BaseEngine):
                     spec = ['umeta', counter]
                 elif r < tempo_bias + 0.17:
                     spec = ['eot']
+                elif r < tempo_bias + 0.19:
+                    spec = [pick(rng, ('etext', 'etext', 'eseq')), rng.randrange(1000)]
                 elif r < tempo_bias + 0.22:
                     spec = ['tsig', rng.randrange(1000)]
                 elif r < tempo_bias + 0.29:
@@ -411,6 +421,18 @@ class Playback(BaseEngine):
                                                     f'tempo={tempo}')
                 if back != t:
                     raise Violation('units:not-inverse', f'second2tick(tick2second({t}, {plan["tpb"]}, {tempo})) = '
+                                                         f'{back}')
+                stats['unit_triples'] += 1
+        # ... and for tempos that are not whole microseconds (any positive tempo), with large ticks too
+        for tempo in (60e6 / 132, 0.5, 333333.3333333333, 1e-3, 499999.5, 16777215.75):
+            for t in (0, 1, 7, plan['tpb'], 10 ** 6 + 1, 268435455):
+                try:
+                    back = second2tick(tick2second(t, plan['tpb'], tempo), plan['tpb'], tempo)
+                except Exception as e:
+                    raise Violation('units:raised', f'tick/second conversion raised {e!r} for t={t} tpb={plan["tpb"]} '
+                                                    f'tempo={tempo}')
+                if back != t:
+                    raise Violation('units:not-inverse', f'second2tick(tick2second({t}, {plan["tpb"]}, {tempo!r})) = '
                                                          f'{back}')
                 stats['unit_triples'] += 1
         # probes on the file
